@@ -1,5 +1,5 @@
-From ZV Require Import Prelude Plasma.
-From ZV.gen Require Import Consts.
+From ZV Require Import Prelude GoSem Plasma.
+From ZV.gen Require Import Consts Pure.
 Open Scope Z_scope.
 Ltac Zify.zify_post_hook ::= Z.div_mod_to_equations.
 
@@ -7,42 +7,83 @@ Ltac unfold_consts := unfold MaxDifficultyForAccountBlock, MaxPoWPlasmaForAccoun
   MaxFussedAmountForAccountBig, MaxFusionPlasmaForAccount, CostPerFusionUnit, PlasmaPerFusionUnit,
   MaxFussedAmountForAccount, MaxPlasmaForAccountBlock, two64, two63 in *.
 
-Lemma d2p_bound d : 0 <= d -> 0 <= difficulty_to_plasma d <= MaxPoWPlasmaForAccountBlock.
+(* characterisation of the translated functions in terms of the dumped constants *)
+Lemma d2p_spec d : 0 <= d < two64 ->
+  difficulty_to_plasma d =
+  if d =? 0 then 0 else if MaxDifficultyForAccountBlock <? d then MaxPoWPlasmaForAccountBlock
+  else d / PoWDifficultyPerPlasma.
 Proof.
-  intros Hd. unfold difficulty_to_plasma.
+  intros Hd. unfold difficulty_to_plasma, DifficultyToPlasma. unfold_consts.
+  destruct (d =? 0) eqn:E0; [reflexivity|].
+  destruct (141750000 <? d) eqn:E1; [reflexivity|].
+  rewrite Z.quot_div_nonneg by lia. apply wrapU64_small. unfold two64. lia.
+Qed.
+
+Lemma f2p_spec a : 0 <= a ->
+  fused_to_plasma a =
+  if a <=? 0 then 0 else if MaxFussedAmountForAccountBig <=? a then MaxFusionPlasmaForAccount
+  else (a / CostPerFusionUnit) * PlasmaPerFusionUnit.
+Proof.
+  intros Ha. unfold fused_to_plasma, FussedAmountToPlasma, zcmp. unfold_consts.
+  destruct (a =? 0) eqn:E0.
+  { assert (a = 0) by lia. subst. reflexivity. }
+  destruct (Z.sgn a <=? 0) eqn:E1; [lia|]. cbn [orb].
+  destruct (a <=? 0) eqn:E2; [lia|].
+  destruct (a <? 500000000000) eqn:E3.
+  - destruct (500000000000 <=? a) eqn:E4; [lia|].
+    change (0 <=? -1) with false. cbv iota.
+    unfold big_uint64. rewrite Z.abs_eq by lia. rewrite (Z.mod_small a) by (unfold two64; lia).
+    rewrite Z.quot_div_nonneg by lia.
+    rewrite (wrapU64_small (a / 100000000)) by (unfold two64; lia).
+    apply wrapU64_small. unfold two64. lia.
+  - destruct (500000000000 <=? a) eqn:E4; [|lia].
+    destruct (a =? 500000000000); reflexivity.
+Qed.
+
+Lemma d2p_bound d : 0 <= d < two64 -> 0 <= difficulty_to_plasma d <= MaxPoWPlasmaForAccountBlock.
+Proof.
+  intros Hd. rewrite d2p_spec by auto.
   destruct (d =? 0) eqn:E0; [unfold_consts; lia|].
   destruct (MaxDifficultyForAccountBlock <? d) eqn:E1; unfold_consts; lia.
 Qed.
 
-Lemma d2p_monotone d1 d2 : 0 <= d1 <= d2 -> difficulty_to_plasma d1 <= difficulty_to_plasma d2.
+Lemma d2p_monotone d1 d2 : 0 <= d1 <= d2 -> d2 < two64 -> difficulty_to_plasma d1 <= difficulty_to_plasma d2.
 Proof.
-  intros H. unfold difficulty_to_plasma.
+  intros H H2. rewrite !d2p_spec by lia.
   destruct (d1 =? 0) eqn:A; destruct (d2 =? 0) eqn:B;
   destruct (MaxDifficultyForAccountBlock <? d1) eqn:C; destruct (MaxDifficultyForAccountBlock <? d2) eqn:D;
   unfold_consts; lia.
 Qed.
 
+Lemma d2p_bounded_monotone d1 d2 : 0 <= d1 <= d2 -> d2 < two64 ->
+  0 <= difficulty_to_plasma d1 <= difficulty_to_plasma d2 /\ difficulty_to_plasma d2 <= MaxPoWPlasmaForAccountBlock.
+Proof.
+  intros H H2. pose proof (d2p_bound d1 ltac:(lia)). pose proof (d2p_bound d2 ltac:(lia)).
+  pose proof (d2p_monotone d1 d2 H H2). lia.
+Qed.
+
+Lemma f2p_nonpos a : a <= 0 -> fused_to_plasma a = 0.
+Proof.
+  intros Ha. unfold fused_to_plasma, FussedAmountToPlasma.
+  destruct (a =? 0) eqn:E0; [reflexivity|].
+  destruct (Z.sgn a <=? 0) eqn:E1; [reflexivity|lia].
+Qed.
+
 Lemma f2p_bound a : 0 <= fused_to_plasma a <= MaxFusionPlasmaForAccount.
 Proof.
-  unfold fused_to_plasma.
+  destruct (Z.le_gt_cases a 0) as [Hn|Hp]; [rewrite f2p_nonpos by auto; unfold_consts; lia|].
+  rewrite f2p_spec by lia.
   destruct (a <=? 0) eqn:E0; [unfold_consts; lia|].
-  destruct (MaxFussedAmountForAccountBig <=? a) eqn:E1; [unfold_consts; lia|].
-  unfold u64, big_uint64. rewrite Z.abs_eq by lia.
-  assert (a mod two64 = a) by (apply Z.mod_small; unfold_consts; lia).
-  rewrite H. unfold_consts.
-  rewrite Z.mod_small; lia.
+  destruct (MaxFussedAmountForAccountBig <=? a) eqn:E1; unfold_consts; lia.
 Qed.
 
 (* exact value of the fused plasma below the cap: whole fusion units only *)
 Lemma f2p_exact a : 0 < a < MaxFussedAmountForAccountBig ->
   fused_to_plasma a = (a / CostPerFusionUnit) * PlasmaPerFusionUnit.
 Proof.
-  intros Ha. unfold fused_to_plasma.
+  intros Ha. rewrite f2p_spec by lia.
   destruct (a <=? 0) eqn:E0; [lia|].
-  destruct (MaxFussedAmountForAccountBig <=? a) eqn:E1; [lia|].
-  unfold u64, big_uint64. rewrite Z.abs_eq by lia.
-  assert (a mod two64 = a) by (apply Z.mod_small; unfold_consts; lia).
-  rewrite H. unfold_consts. rewrite Z.mod_small; lia.
+  destruct (MaxFussedAmountForAccountBig <=? a) eqn:E1; [lia|]. reflexivity.
 Qed.
 
 Lemma available_spec fa c u av :
